@@ -1,14 +1,10 @@
-mod catalogue;
-mod common;
 mod eng_c07;
 mod eng_c08;
+mod eng_c13;
 mod eng_c20;
-mod eng_wire;
-mod peer;
-mod typed;
-mod val;
 
-use common::Cfg;
+use vcore::common::Cfg;
+use vcore::eng_wire;
 
 fn main() {
     let args: Vec<String> = std::env::args().collect();
@@ -28,6 +24,7 @@ fn main() {
         "C03" => eng_wire::run(&cfg, eng_wire::Mode::C03),
         "C07" => eng_c07::run(&cfg),
         "C08" => eng_c08::run(&cfg),
+        "C13" => eng_c13::run(&cfg),
         "C20" => eng_c20::run(&cfg),
         other => {
             eprintln!("unknown property {}", other);
